@@ -35,6 +35,7 @@ func (n *probeNode) Execute(ctx *pongo2.ExecutionContext, w pongo2.TemplateWrite
 // where a filtered expression can be written
 var filterRoutes = []string{
 	"{{ v|F }}",
+	"{{ (v)|F }}", "{% if (v)|F %}a{% endif %}", "{{ 1 + (2)|F }}", "{% set zz = (v)|F %}",
 	"{% if 1 %}{{ v|F }}{% endif %}",
 	"{% for q in l %}{% if q %}{{ v|F }}{% endif %}{% endfor %}",
 	"{% if v|F %}x{% endif %}",
@@ -335,6 +336,7 @@ func suiteC03Hist(cfg Config, res *Result) {
 		// implementation
 		ml := &memLoader{files: map[string]string{"f.tpl": "x"}, id: "0"}
 		set := pongo2.NewSet("h", ml)
+		set.Debug = i%3 == 1 // the sandbox rules do not depend on the debug switch
 		other := pongo2.NewSet("other", &memLoader{files: map[string]string{}, id: "1"})
 		var flags []string
 		nt := false
